@@ -206,6 +206,26 @@ def c02_ctone_long(ctx, case):
     c02_ctone(ctx, case)
 
 
+# grids far longer than the record (multitaper rows: their tolerance is the taper bandwidth, which scales with the grid;
+# the other rows' exact / one-bin clauses are not asserted at NFFT >> N, where neighbouring bins differ by less than the noise)
+@st.composite
+def ctone_big_case(draw):
+    row = draw(st.sampled_from(["mtm_adapt", "mtm_adapt", "mtm_unity", "mtm_eigen"]))
+    N = draw(st.integers(128, 512))
+    nfft = draw(st.sampled_from([20000, 16385, 32769, 40000, 16384]))
+    p = draw(est.params(row, N, True))
+    k = draw(st.one_of(st.integers(-((nfft - 1) // 2), nfft // 2), st.integers(-3000, -200), st.integers(200, 3000)))
+    return {"row": row, "n": N, "nfft": nfft, "k": k, "params": p, "amp": 1.0, "phase": draw(st.floats(0, 6.283)),
+            "noise": draw(st.sampled_from([1e-3, 1e-2])), "seed": draw(gen.seeds), "sampling": draw(st.sampled_from([1.0, 1000.0]))}
+
+
+@sub("C02.ctone_big", strategy=ctone_big_case(), quick=40, thorough=320, shards_quick=8, shards_thorough=16,
+     doc="multitaper rows on grids of 16384..40000 points (records of 128..512 samples): length, axis and the tone within the "
+         "taper bandwidth, also for tones at small negative bins (the tail of the grid)")
+def c02_ctone_big(ctx, case):
+    c02_ctone(ctx, case)
+
+
 # --------------------------------------------------------------------------
 HALF = {"rectangular": 1, "hann": 2, "hamming": 2, "bartlett": 2, "blackman": 3, "kaiser": 3}
 
